@@ -20,6 +20,7 @@ import (
 	"strings"
 	"sync"
 	"sync/atomic"
+	"syscall"
 	"time"
 
 	"github.com/samaritan-proxy/samaritan/proc"
@@ -27,24 +28,57 @@ import (
 
 // ---------------------------------------------------------------- ports
 
-var portSeq int64
+var (
+	portSeq   int64
+	portMu    sync.Mutex
+	portLocks = map[int]*os.File{}
+)
 
 // allocPort returns a loopback port below the ephemeral range that nobody is
 // bound to (probed with a plain listener: fails even against SO_REUSEPORT
-// sockets). The sequence depends on the pid so that concurrently running
-// harness processes do not walk the same ports.
+// sockets) and that no other harness process has been given: the code under
+// test binds the port itself, later and with SO_REUSEPORT, so two processes that
+// probed the same free port would end up sharing it and stealing each other's
+// connections. The claim is an flock on a per-port file, held until
+// releasePort or the end of the process (nothing stale can be left behind).
 func allocPort() int {
 	start := 10000 + (os.Getpid()*7919)%18000
+	os.MkdirAll(portLockDir, 0o777)
 	for i := 0; i < 20000; i++ {
 		p := 10000 + (start-10000+int(atomic.AddInt64(&portSeq, 1))*3)%20000
-		ln, err := net.Listen("tcp4", fmt.Sprintf("127.0.0.1:%d", p))
+		f, err := os.OpenFile(fmt.Sprintf("%s/%d", portLockDir, p), os.O_CREATE|os.O_RDWR, 0o666)
 		if err != nil {
 			continue
 		}
+		if err := syscall.Flock(int(f.Fd()), syscall.LOCK_EX|syscall.LOCK_NB); err != nil {
+			f.Close()
+			continue
+		}
+		ln, err := net.Listen("tcp4", fmt.Sprintf("127.0.0.1:%d", p))
+		if err != nil {
+			f.Close()
+			continue
+		}
 		ln.Close()
+		portMu.Lock()
+		portLocks[p] = f
+		portMu.Unlock()
 		return p
 	}
 	panic("no free port")
+}
+
+const portLockDir = "/tmp/verif-c09-ports"
+
+// releasePort gives a port back to the other harness processes.
+func releasePort(p int) {
+	portMu.Lock()
+	f := portLocks[p]
+	delete(portLocks, p)
+	portMu.Unlock()
+	if f != nil {
+		f.Close()
+	}
 }
 
 // ---------------------------------------------------------------- goroutines
@@ -242,9 +276,11 @@ type peer struct {
 	name   string
 	c      net.Conn
 	local  string
+	lport  int
 	mu     sync.Mutex
 	closed bool // the peer saw its connection closed (EOF / reset)
 	self   bool // the peer closed the connection itself
+	poked  bool
 	rx     []byte
 	rxC    chan struct{}
 }
@@ -263,12 +299,13 @@ func dialPeer(name, addr string, register func(local string)) (*peer, error) {
 		c, err := d.Dial("tcp4", addr)
 		if err != nil {
 			lastErr = err
+			releasePort(lp)
 			if strings.Contains(err.Error(), "address already in use") {
 				continue
 			}
 			return nil, err
 		}
-		p := &peer{name: name, c: c, local: local, rxC: make(chan struct{}, 1)}
+		p := &peer{name: name, c: c, local: local, lport: lp, rxC: make(chan struct{}, 1)}
 		go p.readLoop()
 		return p, nil
 	}
@@ -341,6 +378,21 @@ func (p *peer) roundTrip(msg, want string, d time.Duration) bool {
 		case <-p.rxC:
 		case <-time.After(5 * time.Millisecond):
 		}
+	}
+}
+
+// poke writes one byte. A connection that the kernel completed for the peer while the listening
+// socket was being closed can be left half-open (established at the peer, unknown to the server,
+// no RST: observed for about 1 % of the dials that race with the close on this kernel); the
+// listener never had it. The first segment the peer sends is answered with a RST.
+func (p *peer) poke() {
+	p.mu.Lock()
+	done := p.poked
+	p.poked = true
+	p.mu.Unlock()
+	if !done {
+		p.c.SetWriteDeadline(time.Now().Add(time.Second))
+		p.c.Write([]byte("?"))
 	}
 }
 
